@@ -121,6 +121,13 @@ Example C19_example_valid :
   app_after_history [(canonical_order ex_valid, ex_valid)] fresh_app = used_app.
 Proof. exact ex_valid_accepted. Qed.
 
+(* valid, accepted, but the first subsystem (zookeeper: default root path on an unreachable ensemble) fails at start time *)
+Example C19_example_start_failure :
+  requirements ex_default_root = [] /\
+  start (canonical_order ex_default_root) ex_default_root fresh_app = Returned 1 [CZookeeper] /\
+  config_valid (canonical_order ex_default_root) ex_default_root fresh_app = true.
+Proof. exact ex_default_root_start_failure. Qed.
+
 Example C19_example_invalid :
   requirements ex_bad_regex = [(StorageAllow, 1)] /\
   start (canonical_order ex_bad_regex) ex_bad_regex fresh_app = Returned 1 nothing_started /\
